@@ -472,8 +472,39 @@ func C10(c *core.Ctx) {
 
 	defer func() { <-mcDone }()
 
-	res := runE2EMixed(c, nshards, "TraceE2E_C10.cfg", func(i int) (string, interface{}) {
+	// GEN: the teardown signatures of one association (who calls Shutdown at which step of the running teardown), read off
+	// the complete graph of the life-cycle model by TLC (spec/LifeScript.tla), are forced on the agent through the gates
+	sigFile := filepath.Join(c.Scratch, "sigs.json")
+	scopeShards, scopeMax := 3, 9
+
+	if c.Thorough() {
+		scopeShards, scopeMax = 6, 0
+	}
+
+	if c.ReplayDir == "" {
+		gr, err := c.RunTLC(core.TLCRun{Module: "LifeScript", Cfg: "MCLifeScript.cfg", Workers: 4, HeapMB: 4000, Timeout: 10 * time.Minute, Label: "gen"})
+		if err != nil || !gr.OK() {
+			c.Inconclusive("GEN: TLC did not enumerate the teardown signatures of LifeScript")
+			scopeShards = 0
+		} else if n, err := writeSigs(gr.OutputPath, sigFile); err != nil || n == 0 {
+			c.Inconclusive("GEN: no signatures in TLC's output: %v", err)
+			scopeShards = 0
+		} else {
+			c.AddCount("gen_scripts", int64(n))
+			c.AddTLC("gen", gr)
+		}
+	} else {
+		scopeShards = 0
+	}
+
+	res := runE2EMixed(c, nshards+scopeShards, "TraceE2E_C10.cfg", func(i int) (string, interface{}) {
 		dir, trace := shardDir(c, i)
+
+		if i >= nshards {
+			return "e2e-life-scope", LifeScopeParams{Dir: dir, Trace: trace, AgentBin: filepath.Join(c.BinDir, "verif-agent"), N4Addr: n4For(i), Seed: c.Seed*1000 + 180 + int64(i),
+				Sigs: sigFile, Shard: i - nshards, Of: scopeShards, Max: scopeMax}
+		}
+
 		bin, race := "verif-agent", false
 		if i%2 == 1 { // every other shard runs the agent under the race detector
 			bin, race = "verif-agent-race", true
